@@ -1,0 +1,110 @@
+//go:build verif
+
+package waddrmgr
+
+import (
+	"fmt"
+	"sort"
+)
+
+// VerifBuffer describes one in-memory clear-text secret buffer of the
+// address manager. State is one of "nil", "zero" or "nonzero".
+type VerifBuffer struct {
+	Name  string
+	State string
+}
+
+func verifBytesState(b []byte) string {
+	if b == nil {
+		return "nil"
+	}
+	for _, x := range b {
+		if x != 0 {
+			return "nonzero"
+		}
+	}
+	return "zero"
+}
+
+// VerifBufferReport lists every clear-text private-material buffer reachable
+// from the manager together with whether it currently holds non-zero bytes.
+// Only compiled with the "verif" build tag; used by the external verification
+// harness (wiping has no API-visible effect otherwise).
+func (m *Manager) VerifBufferReport() []VerifBuffer {
+	m.mtx.RLock()
+	defer m.mtx.RUnlock()
+
+	var out []VerifBuffer
+	add := func(name, state string) {
+		out = append(out, VerifBuffer{Name: name, State: state})
+	}
+
+	if m.masterKeyPriv == nil || m.masterKeyPriv.Key == nil {
+		add("masterKeyPriv.Key", "nil")
+	} else {
+		add("masterKeyPriv.Key", verifBytesState(m.masterKeyPriv.Key[:]))
+	}
+	if m.cryptoKeyPriv == nil {
+		add("cryptoKeyPriv", "nil")
+	} else {
+		add("cryptoKeyPriv", verifBytesState(m.cryptoKeyPriv.Bytes()))
+	}
+	if m.cryptoKeyScript == nil {
+		add("cryptoKeyScript", "nil")
+	} else {
+		add("cryptoKeyScript", verifBytesState(m.cryptoKeyScript.Bytes()))
+	}
+	add("hashedPrivPassphrase", verifBytesState(m.hashedPrivPassphrase[:]))
+
+	for scope, s := range m.scopedManagers {
+		s.mtx.RLock()
+		for acct, info := range s.acctInfo {
+			st := "nil"
+			if info.acctKeyPriv != nil {
+				st = "nonzero"
+				if !info.acctKeyPriv.IsPrivate() {
+					st = "zero"
+				}
+			}
+			add(fmt.Sprintf("scope[%s].acct[%d].acctKeyPriv", scope, acct), st)
+		}
+		for _, ma := range s.addrs {
+			name := fmt.Sprintf("scope[%s].addr[%s]", scope, ma.Address())
+			switch a := ma.(type) {
+			case *managedAddress:
+				a.privKeyMutex.Lock()
+				add(name+".privKeyCT", verifBytesState(a.privKeyCT))
+				a.privKeyMutex.Unlock()
+			case *scriptAddress:
+				a.scriptMutex.Lock()
+				add(name+".scriptClearText", verifBytesState(a.scriptClearText))
+				a.scriptMutex.Unlock()
+			case *witnessScriptAddress:
+				if a.isSecretScript {
+					a.scriptMutex.Lock()
+					add(name+".scriptClearText", verifBytesState(a.scriptClearText))
+					a.scriptMutex.Unlock()
+				}
+			case *taprootScriptAddress:
+				if a.isSecretScript {
+					a.scriptMutex.Lock()
+					add(name+".scriptClearText", verifBytesState(a.scriptClearText))
+					a.scriptMutex.Unlock()
+				}
+			}
+		}
+		if s.privKeyCache != nil {
+			s.privKeyCache.Range(func(p DerivationPath, k *cachedKey) bool {
+				kb := k.key.Serialize()
+				add(fmt.Sprintf("scope[%s].privKeyCache[%d/%d/%d]", scope,
+					p.Account, p.Branch, p.Index), verifBytesState(kb))
+				return true
+			})
+		}
+		add(fmt.Sprintf("scope[%s].deriveOnUnlock.len=%d", scope, len(s.deriveOnUnlock)), "nil")
+		s.mtx.RUnlock()
+	}
+
+	sort.Slice(out, func(i, j int) bool { return out[i].Name < out[j].Name })
+	return out
+}
